@@ -36,7 +36,7 @@ func (r *Rng) Fork(i int) *Rng { return NewRng(r.s ^ (uint64(i)+1)*0xD1B54A32D19
 
 // ---- cell alphabets ----
 
-var colNames = []string{"a", "b", "c", "d", "index", "k", "v", "GroupKey", "stat", "a|b", "x:y", ""}
+var colNames = []string{"a", "b", "c", "d", "index", "k", "v", "GroupKey", "stat", "a|b", "x:y", "", " a", "a ", "b\t"}
 var plainNames = []string{"a", "b", "c", "d", "e"}
 
 // small, collision-rich scalar cells
